@@ -331,14 +331,38 @@ def r6_decoder_read_waits_for_what_is_asked(cx):
     depend on the length asked can stop exactly at the offset, serve nothing and end the stream early."""
     F = cx.F
     f = F.one(impl_self="bases::io::compression::SeekableDecoder", item="read", trait="Source", closure=False)
-    b = F.deep_body(f, only=r"bases::io::compression::SeekableDecoder::(?!decode_to|decoded_slice)")
-    dt = b.calls(r"SeekableDecoder::decode_to$")
+    # the functions of compression.rs that (transitively) wait on the decoder's Condvar: the call of one of them in `read`
+    # (everything else of that file inlined) is where the reader waits, and its usize argument is the bound waited for
+    comp = [g for g in F.live_fns if "blocks" in g and re.search(r"^<?bases::io::compression::", g["name"]) and g["id"] != f["id"]]
+    waits = set()
+    changed = True
+    while changed:
+        changed = False
+        for g in comp:
+            if g["id"] in waits:
+                continue
+            for blk in g["blocks"]:
+                t_ = blk["t"]
+                if t_["k"] != "call" or blk.get("cleanup"):
+                    continue
+                c_ = t_.get("callee") or {}
+                if call_is(t_, r"Condvar::wait(_while)?(::<.*>)?$") or c_.get("rfn") in waits or c_.get("def_fn") in waits:
+                    waits.add(g["id"]); changed = True
+                    break
+    names = {g["name"] for g in comp if g["id"] in waits}
+    b = F.deep_body(f, only=r"^<?bases::io::compression::")
+    # deep_body inlines by regex; the waiting functions must stay calls: rebuild with them excluded
+    excl = "|".join(re.escape(re.sub(r"<.*?>", "", n).split("::")[-1]) for n in names) or "$^"
+    b = F.deep_body(f, only=r"^<?bases::io::compression::(?!.*::(%s)$)" % excl)
+    dt = [(i, t) for i, t in b.calls() if ((t.get("callee") or {}).get("rfn") in waits or (t.get("callee") or {}).get("def_fn") in waits)]
+    dt = [(i, dict(t, args=[t["args"][0]] + [a for a in t["args"][1:] if op_place(a) is not None and (b.locals[op_place(a)["l"]].get("ty") or "") == "usize"])) for i, t in dt]
+    dt = [(i, t) for i, t in dt if len(t["args"]) >= 2]
     if len(dt) != 1:
-        raise AnchorLost("SeekableDecoder::read: %d calls of decode_to" % len(dt))
+        raise AnchorLost("SeekableDecoder::read: %d calls that wait for the decoder with a bound" % len(dt))
     o = b.origins(dt[0][1]["args"][1])
     has_len = any(x[0] == "call" and call_is(b.term(x[1]), r"slice::<impl \[u8\]>::len$|::len$") and ("param", 3) in b.origins(b.term(x[1])["args"][0]) for x in o)
     has_off = ("param", 2) in o
-    has_total = any(x[0] == "call" and call_is(b.term(x[1]), r"total_size$|::size$") for x in o)
+    has_total = any(x[0] == "call" and call_is(b.term(x[1]), r"total_size$|::size$") for x in o) or ("field", "total_size") in o
     consts = sorted(x[1] for x in o if x[0] == "const" and isinstance(x[1], int) and not isinstance(x[1], bool) and x[1] not in (0, 1))
     cx.ob("R6", "R6/SeekableDecoder.read/waits-for-the-request", has_len and has_off and has_total and not consts, f,
           "decode_to waits for min(offset + buf.len(), total): depends on the offset (%s), on the length asked (%s), on the total size (%s), on no other constant (%s)" % (has_off, has_len, has_total, consts), ln=dt[0][1].get("ln"))
